@@ -31,7 +31,9 @@ EXPLANATION = (
     "distinct method constants out of {input-balanced, rule-based, mcs-based} and nothing else writes the method column; (V4) "
     "impute_reaction cannot return normally when the carbon label is 'reactants', the rule-based stage forwards only carbon-balanced "
     "rows and promotion needs the label 'balanced'; (V5) the confidence filter keeps a row exactly when confidence >= threshold, so the "
-    "default threshold 0 demotes nothing (shared with C13-H1)."
+    "default threshold 0 demotes nothing (shared with C13-H1); (V6) every caller-settable setting read by the pipeline is part of the "
+    "cache key at the time the key is computed, so a batch demoted (and left edited) under a raised threshold is never served to a "
+    "default-threshold run (shared with C12-K1)."
 )
 ASSUMPTIONS = [
     "rows do not pre-populate the tool's own output columns (precondition of the property)",
@@ -48,12 +50,23 @@ def rule_v1(ctx, pl: Pipeline, writers) -> None:
     reverts = []
     for w in writers:
         if w.klass == "revert-unsolved":
+            # the revert has to hit the *configured* reaction column, not a literal that
+            # merely equals its default name
+            if pl.reaction_col.kind == "sym" and pl.reaction_col not in w.store.keys:
+                ctx.instance("C03-V1", "stage %d %s: revert store writes the literal key %s, not the configured reaction column" % (w.stage.index, w.stage.label, sorted(map(repr, w.store.keys))), w.where, ok=False)
+                ctx.finding(
+                    "C03-V1",
+                    "%s:literal-column" % w.construct,
+                    w.where,
+                    "the revert of unsolved rows stores into the key %s, which equals the reaction column only under its default name: with a caller-chosen reaction column the edited text stays in the row that is reported as declined" % sorted(map(repr, w.store.keys)),
+                )
+                continue
             flag = w.stage.kw("override_unsolved")
             armed = flag == frozenset({Val("const", True)})
             reverts.append((w, armed))
             ctx.instance("C03-V1", "stage %d %s: revert store, override_unsolved=%s" % (w.stage.index, w.stage.label, sorted(map(repr, flag))), w.where, armed=armed)
     armed_idx = [w.stage.index for w, a in reverts if a]
-    ctx.require(reverts, "Validator.check has no `not solved => reaction := input_reaction` store any more")
+    ctx.require(reverts or any(f.rule == "C03-V1" and f.construct.endswith(":literal-column") for f in ctx.findings), "Validator.check has no `not solved => reaction := input_reaction` store any more")
     dirty_classes = ("unsolved-only", "unsolved-only(mcs-key)", "fresh-unbalanced", "fresh-unbalanced(slice)", "unguarded", "before-first-verdict")
     last_revert = max(armed_idx) if armed_idx else -1
     for w in writers:
@@ -276,3 +289,8 @@ def check(ctx) -> None:
     from . import c13
 
     c13.check(ctx, only_h1=True, h1_rule="C03-V5")
+    # V6: the default-threshold assumption survives the cache: a batch served from the cache was
+    # computed under the configuration in force now (shared with C12-K1)
+    from . import c12
+
+    c12.rule_k1(ctx, "C03-V6")
